@@ -119,3 +119,92 @@ pub fn explore(
     st.closure_complete = !depth_truncated && !st.cap_hit;
     st
 }
+
+struct PairNode {
+    a: Matcher,
+    b: Matcher,
+    id: u32,
+    depth: u32,
+}
+
+/// Lock-step exploration of two real engines. `visit(a, b, hist, depth)` checks the pair and
+/// returns the successor moves: (token for A, token sequence for B). A pair is expanded once
+/// per (key(A), key(B)).
+pub fn explore_pair(
+    root_a: Matcher,
+    root_b: Matcher,
+    cfg: &ExploreCfg,
+    mut visit: impl FnMut(&mut Matcher, &mut Matcher, &[u32], usize) -> Option<Vec<(u32, Vec<u32>)>>,
+) -> ExploreStats {
+    let mut st = ExploreStats::default();
+    let mut parents: Vec<(u32, u32)> = vec![(u32::MAX, 0)];
+    let mut seen: HashSet<(u128, u128)> = HashSet::new();
+    if cfg.use_key {
+        seen.insert((state_key(&root_a), state_key(&root_b)));
+    }
+    let mut q = VecDeque::new();
+    q.push_back(PairNode { a: root_a, b: root_b, id: 0, depth: 0 });
+    let hist_of = |parents: &Vec<(u32, u32)>, mut id: u32| {
+        let mut h = vec![];
+        while parents[id as usize].0 != u32::MAX {
+            h.push(parents[id as usize].1);
+            id = parents[id as usize].0;
+        }
+        h.reverse();
+        h
+    };
+    let mut last_depth = 0;
+    let mut depth_truncated = false;
+    while let Some(mut node) = q.pop_front() {
+        if node.depth as usize > last_depth {
+            st.depth_completed = last_depth;
+            last_depth = node.depth as usize;
+        }
+        st.states += 1;
+        let hist = hist_of(&parents, node.id);
+        let Some(succ) = visit(&mut node.a, &mut node.b, &hist, node.depth as usize) else {
+            return st;
+        };
+        if succ.is_empty() {
+            continue;
+        }
+        if node.depth as usize >= cfg.max_depth {
+            depth_truncated = true;
+            continue;
+        }
+        for (ta, tbs) in succ {
+            let mut ca = node.a.clone();
+            let mut cb = node.b.clone();
+            st.transitions += 1;
+            let ra = ca.consume_token(ta);
+            let rb = cb.consume_tokens(&tbs);
+            if ra.is_err() || rb.is_err() {
+                if st.failed_commits.len() < 20 {
+                    let e = format!(
+                        "A: {} / B: {}",
+                        ra.err().map(|e| e.to_string()).unwrap_or("ok".into()),
+                        rb.err().map(|e| e.to_string()).unwrap_or("ok".into())
+                    );
+                    st.failed_commits.push((hist.clone(), ta, e));
+                }
+                continue;
+            }
+            if cfg.use_key {
+                let k = (state_key(&ca), state_key(&cb));
+                if !seen.insert(k) {
+                    continue;
+                }
+            }
+            if parents.len() >= cfg.max_states {
+                st.cap_hit = true;
+                continue;
+            }
+            let id = parents.len() as u32;
+            parents.push((node.id, ta));
+            q.push_back(PairNode { a: ca, b: cb, id, depth: node.depth + 1 });
+        }
+    }
+    st.depth_completed = last_depth;
+    st.closure_complete = !depth_truncated && !st.cap_hit;
+    st
+}
